@@ -26,7 +26,7 @@ def run(run, model):
     # activation only if it is not held while user code that may spawn tasks (the body) runs, and never left behind
     run.do(marker.body_rules, model, "C12.body-unheld", None)
     run.do(marker.key_rule, model, "C12.key")
-    run.do(marker.report_rule, model, "C11.release-on-all-exits", marker.MARKER_REGIONS, "no exit is reached with the marker held (a marker left behind is copied into every task created later from this context and switches their checks off)", as_rule="C12.no-sticky")
+    run.do(marker.report_rule, model, "C11.release-on-all-exits", marker.MARKER_REGIONS_ALL, "no exit is reached with the marker held (a marker left behind is copied into every task created later from this context and switches their checks off)", as_rule="C12.no-sticky")
     run.minimum("C12.immutable-values", 6, "default + five functions using the context variable")
     run.minimum("C12.no-other-state", 20)
     run.minimum("C12.ctxvar-only", 5)
